@@ -144,7 +144,7 @@ CLAIMED = {
               "instantiated on the kernel-certified real tables, and 100 generated identities show that in energy form every "
               "traced neighbour weight of every neighbour-type class is such a symmetric coefficient.  Low-fidelity and "
               "multi-region assemblies, temperature-dependent coolant, flow continuity between steps and the mixed-mean "
-              "carry-over are decided by driving real reactors plane by plane.  Low-fidelity regions: the real _calc_coolant_temp of the single-node and six-node models (low-flow approximation on/off, coupled or adiabatic wall) is traced WITH its tallies; eight generated theorems (Gen/C01Ur.lean): enthalpy-flow change of the node(s) = tallied power + tallied wall heat, tallied power = q dz, conduction between the six nodes sums to zero.  The reactor oracle also requires the subchannel flows of every region to sum to the assembly flow (all flow-split correlations, incl. SE2 / MIT / Novendstern)."),
+              "carry-over are decided by driving real reactors plane by plane.  Low-fidelity regions: the real _calc_coolant_temp of the single-node and six-node models (low-flow approximation on/off, coupled or adiabatic wall) is traced WITH its tallies; eight generated theorems (Gen/C01Ur.lean): enthalpy-flow change of the node(s) = tallied power + tallied wall heat, tallied power = q dz, conduction between the six nodes sums to zero.  Region change: the real _activate_base and the regions' own mixed-mean properties are traced on four pairs of real regions (bundle / double-ducted bundle / single-node / six-node); Gen/C01Carry.lean: the mixed mean of the new region after activation equals the mixed mean of the old one, given that the new region's weights sum to one.  The reactor oracle also requires the subchannel flows of every region to sum to the assembly flow (all flow-split correlations, incl. SE2 / MIT / Novendstern)."),
         note=COMMON_NOTE + ("T1b symbolic execution (whole-bundle); hypotheses of the theorems: 6*q_interior = 1 for "
                             "the pin-to-subchannel fraction literal 0.166666666666667 (defect 2e-15), equal swirl "
                             "velocity for edge and corner cells (checked on real regions), positive divisors.  "
@@ -229,8 +229,11 @@ CLAIMED = {
               "both sides of the break at 1.1) and geometries with P/D and W/D on opposite sides of it.  The Lean iteration model (Model/FlowSplit.lean, iterStep) is run by the native driver on the inputs of "
               "real _iterate calls and must reproduce the fixed point the code returns."),
         note=COMMON_NOTE + ("T1 trace of _calc_constant_flowsplits; the iteration update is a hand model of the last lines "
-                            "of _iterate validated by the oracle.  NOV/MIT/SE2 splits and the friction/mixing correlations "
-                            "are covered by the oracle only.  Nine genuine defects (combinations that cannot be evaluated, NaN "
+                            "of _iterate validated by the oracle.  SE2 and MIT splits: the real calculate_flow_split is traced, every real power is replaced by a variable "
+                            "and the translator checks (obligation) that the powers come in reciprocal pairs; Gen/C12Geo mass_se2 / mass_mit "
+                            "prove mass conservation under the pair relations, Props/C12 c12_rpow_pair_neg / _inv prove those relations for "
+                            "Real.rpow and c12_mass_se2 / c12_mass_mit put the real powers back.  The Novendstern split and the "
+                            "friction/mixing correlations are covered by the oracle only.  Nine genuine defects (combinations that cannot be evaluated, NaN "
                             "friction factor, the approximate transition split not equalising the gradients, UCTD split with "
                             "CTD friction) are recorded in known_findings.json by call site."),
         technique="Lean 4 proof (field_simp; Real.rpow algebra) over traced split + hand update model + exhaustive combination oracle",
